@@ -98,6 +98,40 @@ func checkC04(c gen.ProgCase) Verdict {
 		return bad(true, "outputs differ\n js %q\n go %q\n%s data=%v ij=%v\n%s", r.Out, rr.out, showSources(names, srcs), c.Data, c.IJ, showJS(files))
 	}
 	st := statsOf(&c.Prog)
+	// the same with a translation bundle (marked translations of every non-plural message)
+	if st.msgs > 0 {
+		msgs := identityBundle(cb)
+		var gbuf bytes.Buffer
+		var gerr error
+		if p := catch(func() {
+			rd := cb.tofu.NewRenderer(c.Entry).WithMessages(msgs)
+			if c.HasIJ {
+				rd.Inject(toDataMap(c.IJ))
+			}
+			gerr = rd.Execute(&gbuf, toDataMap(c.Data))
+		}); p != nil || gerr != nil {
+			return bad(true, "Go render with a message bundle failed: %v %v\n%s", p, gerr, showSources(names, srcs))
+		}
+		mfiles, err := jsSources(cb, soyjs.Options{Messages: msgs}, false)
+		if err != nil {
+			return bad(true, "%v\n%s", err, showSources(names, srcs))
+		}
+		mresp, err := theNode.do(jsRequest{Files: mfiles, Plural: "one-other", Calls: []jsCall{{Name: c.Entry, Data: toJSONMap(c.Data), IJ: ij}}})
+		if err != nil {
+			return excluded("infra: " + err.Error())
+		}
+		for i, l := range mresp.Load {
+			if l != nil {
+				return bad(true, "generated JavaScript (with a message bundle) for %s does not load: %s\n%s", mfiles[i].Name, *l, mfiles[i].Src)
+			}
+		}
+		if mr := mresp.Results[0]; !mr.OK || ref.CanonRefs(mr.Out) != ref.CanonRefs(gbuf.String()) {
+			return bad(true, "outputs differ with a message bundle\n js %q (error %q)\n go %q\n%s data=%v\n%s", mr.Out, mr.Error, gbuf.String(), showSources(names, srcs), c.Data, showJS(mfiles))
+		}
+		if c04rec != nil {
+			c04rec.add("outputs_compared_with_bundle", 1)
+		}
+	}
 	control := st.calls+st.ifs+st.loops+st.switches > 0
 	v := ok(control && st.prints > 0 && len(c.Data) > 0)
 	add := func(cond bool, name string) {
